@@ -26,6 +26,8 @@ import contextlib
 import io
 import os
 
+from .rebind import rebind
+
 
 @contextlib.contextmanager
 def _quiet():
@@ -196,6 +198,8 @@ class Clock:
     def perf_counter(self):
         return self.t
 
+    monotonic = perf_counter
+
     def time(self):
         return 1.7e9 + self.t
 
@@ -277,9 +281,8 @@ def make_manager(timecode: bool = False, log_level: int = 100, send_msg_timing: 
     import pyrtma.manager as M
 
     world = World()
-    M.socket = SocketShim(world)
-    M.time = world.clock
-    M.random = NoShuffle()
+    # whatever the import style of manager.py (`import time` / `from time import perf_counter` / aliases): harness/rebind.py
+    rebind(M, {"socket": SocketShim(world), "time": world.clock, "random": NoShuffle()})
     with _quiet():
         mgr = M.MessageManager(ip_address="127.0.0.1", port=7111, timecode=timecode, log_level=log_level,
                                debug=debug, send_msg_timing=send_msg_timing)
@@ -303,7 +306,7 @@ def run_manager(rounds: List[Dict[str, Any]], **kw) -> Dict[str, Any]:
     class _Sel:
         select = staticmethod(ss.select)
 
-    M.select = _Sel
+    rebind(M, {"select": _Sel})
     crash = None
     try:
         with _quiet():
